@@ -54,6 +54,25 @@ def _raise_for_status_with_body(response: httpx.Response) -> None:
         raise
 
 
+async def _aiter_sse_lines(response: httpx.Response) -> AsyncIterator[str]:
+    """Yield the lines of a Server-Sent Events response body.
+
+    Lines are split on ``"\\n"`` only (a trailing ``"\\r"`` is left for the
+    caller to strip). ``response.aiter_lines()`` follows ``str.splitlines`` and
+    also breaks lines at characters such as U+2028, U+2029 and U+0085, which
+    JSON does not escape and which may therefore occur inside a ``data:``
+    payload.
+    """
+    buffer = ""
+    async for text in response.aiter_text():
+        buffer += text
+        *lines, buffer = buffer.split("\n")
+        for line in lines:
+            yield line
+    if buffer:
+        yield buffer
+
+
 @dataclass(frozen=True)
 class _QueuedEvent:
     sequence: int | Literal["now"]
@@ -387,7 +406,7 @@ class WorkflowClient:
 
                                 # Parse SSE stream: "id: N\ndata: {...}\n\n"
                                 current_id: str | None = None
-                                async for line in response.aiter_lines():
+                                async for line in _aiter_sse_lines(response):
                                     stripped = line.strip()
                                     if not stripped:
                                         # Empty line = end of SSE event
